@@ -161,7 +161,7 @@ func modelHexDecode(x *Exec, cs *callSite) *Val {
 	srcAt := func(k string) string {
 		return fmt.Sprintf("(select %s (bvadd %s %s))", sa.S, sOff(src).S, k)
 	}
-	allhex := T(SBool, "(forall ((k (_ BitVec 64))) (=> (bvult k %s) (hex.is %s)))", sLen(src).S, srcAt("k"))
+	allhex := T(SBool, "(forall ((a (_ BitVec 64))) (! (=> (bvult (bvsub a %s) %s) (hex.is (select %s a))) :pattern ((select %s a))))", sOff(src).S, sLen(src).S, sa.S, sa.S)
 	even := Eq(T(SBV64, "(bvand %s #x0000000000000001)", sLen(src).S), bv64(0))
 	okc := x.sc.Define("hex_ok", And(even, allhex))
 	e := x.sc.Fresh("hex_err", SIface)
